@@ -164,12 +164,14 @@ def run_c08(chk, seed, tier):
     chk.cov["distinct_nontrivial"] = len(set(vlib.canon_hash([c["kind"], c.get("N"), c.get("t"), c.get("L"), c.get("pattern"), c.get("signer"),
                                                               c.get("signers"), c.get("order"), c.get("ids")]) for c in rows if c.get("accept") or c.get("ok")))
     chk.cov["rule"] = ("one real in-process TPS key generation per (N,t,L) (N<=4, all t, L=1..4, shuffled start order) with parties 1..N, plus one per party identifier "
-                       "set {1,2,4} {2,3,5} {1,3,4,6} {3,7} {0,1,2} {255,256,300} {65533,65534,65535} {4,2,1} (the model is fed ranks, the API identifiers), scalar-level comparison of "
+                       "set {1,2,4} {2,3,5} {1,3,4,6} {3,7} {0,1,2} {255,256,300} {65533,65534,65535} {4,2,1} (the model is fed ranks, the API identifiers) "
+                       "and one per larger configuration (6,2) (8,3) (12,2) (12,7) (thorough also (16,2) (10,10)) with one message vector and five signer subsets, scalar-level comparison of "
                        "every share / published key / threshold key with the closed form sum_j p_j(i) (polynomials known through the seeded "
                        "randomness); per key set 2-3 message vectors incl. empty and equal entries: blind, sign at every party (KeyGen instance "
                        "or instance reloaded from share data), unblind, prove for every signer subset of size >= t (one also in reversed order), "
                        "verify; non-trivial = step accepted; distinct by (kind, N, t, L, message pattern, signer set)")
     chk.cov["input_distribution"] = dict(collections.Counter("%s N=%s t=%s" % (c["kind"], c.get("N"), c.get("t")) for c in rows))
+    chk.cov["n_t_exercised"] = sorted(set("(%d,%d)" % (c["N"], c["t"]) for c in dk))
     chk.cov["party_identifier_sets"] = dict(collections.Counter(str(c.get("ids")) for c in rows if c["kind"] == "pok_complete"))
     chk.cov["scalar_comparisons"] = sum(c.get("scalars", 0) for c in dk)
     chk.cov["model_scenarios_evaluated"] = n_eval
